@@ -29,6 +29,9 @@ def main():
     # the monitor waits for -- the lesson of C06's compiled-field-beyond-wire-block finding)
     cfgs = [build.Cfg("g++", "17", "plain", defs=("SBEPP_ENABLE_ASSERTS_WITH_HANDLER", "VRT_STEP_COUNTER"),
                       extra=("-O0", "-fsanitize-coverage=trace-pc"))]
+    # views over std::byte (the byte type of the documentation's examples) in a second, optimised configuration
+    cfgs.append(build.Cfg("g++", "20", "plain", defs=("SBEPP_ENABLE_ASSERTS_WITH_HANDLER", "VRT_STEP_COUNTER", "VRT_BYTE_KIND=2"),
+                          extra=("-O1", "-fsanitize-coverage=trace-pc")))
     if not quick:
         cfgs.append(build.Cfg("g++", "11", "plain", defs=("SBEPP_ENABLE_ASSERTS_WITH_HANDLER", "VRT_STEP_COUNTER"),
                               extra=("-O1", "-fsanitize-coverage=trace-pc")))
